@@ -1,6 +1,6 @@
 SPECIFICATION TSpec
-CONSTANTS Conns = {c1, c2, c3}  MaxReq = 2  NoChk2 = FALSE  DecBeforeClose = FALSE
-INVARIANTS NoForwardAfterShutdown NilOnlyWhenDrained ErrOnlyIfCtx
+CONSTANTS Conns = {c1, c2, c3}  MaxReq = 2  NoChk2 = FALSE  DecBeforeClose = FALSE  NoChk3 = FALSE
+INVARIANTS NoForwardAfterShutdown NilOnlyWhenDrained ErrOnlyIfCtx ClosedAfterInflight
 CONSTRAINT HWM
 POSTCONDITION Accepted
 CHECK_DEADLOCK FALSE
